@@ -5,19 +5,24 @@ canonical number is the generator's argument, which characters are the check), s
   1. HARD table for the irregular modules (several generators with guards, 'one of' generators, kwargs);
   2. else a *source hint*: the comparison `calc_x(<expr of number>) != number[<idx>]` found in the module
      text (used even when some corpus number disagrees: such disagreements are (a)-failures);
-  3. else the first of a fixed list of candidate projections that holds for all valid corpus numbers;
+  3. else the best fitting one of a fixed list of candidate projections, if it holds for the majority of the
+     valid corpus numbers (the others are then (a)-failures);
   4. else the generator is reported as 'unmodelled' in the distribution (never as a failure).
 Checked relations
   (a) generator(payload(v)) == check(v)                       for every valid v (corpus + synthesised)
   (b) v with one check character replaced by any other character of the check alphabet is rejected,
       unless the module documents an alternative check character (es.cif, pe.cui: generator returns the
       set of allowed characters; bg.vat 10-digit numbers: EGN / PNF numbers are accepted as well)
+  (a') validator side enumeration: all combinations of check alphabet characters at the check position(s) of a
+      sample of valid numbers; every accepted combination must be the generated one (this sees aliases that
+      differ in two characters, e.g. mod 97 check digits 00 / 97, which (b) cannot see)
   (c) payload + generated check is never rejected with InvalidChecksum raised by the module itself
       (other ValidationErrors are fine; generators that report "no check character exists" by raising a
       ValidationError or by returning something that is not a check string of the right length -
       by.unp, si.maticna, vn.mst, at.vnr ... - are checked the other way round: no check character may
       then make the number valid).
 """
+import itertools
 import os
 import random
 import re
@@ -229,14 +234,17 @@ def build_model(mod, canon):
                 projs += mine
                 how[g] = 'hint'
                 continue
-            for pl, chk in GENERIC:
+            best, bestfit = None, 0
+            for pl, chk in GENERIC:      # best fitting candidate, earlier candidates win ties
                 c = P(g, pl, chk)
-                if canon and all(holds(mod, c, n) for n in canon):
-                    projs.append(c)
-                    how[g] = 'generic'
-                    break
+                fit = sum(1 for n in canon if holds(mod, c, n))
+                if fit > bestfit:
+                    best, bestfit = c, fit
+            if best is not None and bestfit * 2 >= len(canon):    # majority: disagreements are reported by (a)
+                projs.append(best)
+                how[g] = 'generic'
             else:
-                how[g] = 'unmodelled: no projection fits the %d valid corpus numbers' % len(canon)
+                how[g] = 'unmodelled: no projection fits the majority of the %d valid corpus numbers' % len(canon)
     if canon and name not in HARD:    # completion order: by position of the check characters
         L = len(canon[0])
         projs.sort(key=lambda p: slice(*p['check']).indices(L)[0])
@@ -313,7 +321,8 @@ def module_job(arg):
     col = _chk.Collector()
     dist = {'a_checked': 0, 'b_variants': 0, 'b_accepted_documented_alternative': 0, 'c_completed': 0,
             'c_accepted': 0, 'c_rejected_other_validation_error': 0, 'c_rejected_checksum_other_module': 0,
-            'c_generator_no_check': 0, 'c_no_generator_applies': 0, 'b_skipped_number_fails_a': 0, 'c_generator_exception': 0, 'generator_reads_check_position': 0}
+            'c_generator_no_check': 0, 'c_no_generator_applies': 0, 'b_skipped_number_fails_a': 0,
+            'enum_variants': 0, 'enum_accepted': 0, 'enum_skipped_too_large': 0, 'c_generator_exception': 0, 'generator_reads_check_position': 0}
     cases = 0
     nontrivial = set()
     samples = []
@@ -330,11 +339,11 @@ def module_job(arg):
     if not projs or not canon:
         return {'module': vlabel, 'info': info, 'dist': dist, 'cases': 0, 'nontrivial': 0, 'sites': [], 'samples': []}
     if tier == 'quick':
-        seeds = canon[:100]
-        nsynth = 1500
+        seeds = canon[:200]
+        nsynth = 6000
     else:
         seeds = canon
-        nsynth = 25000
+        nsynth = 60000
 
     fails_a = set()
 
@@ -402,6 +411,38 @@ def module_job(arg):
                         _chk.value_site(modname, 'validate', 'other-check-character-accepted-whitelisted-number'
                                         if v in getattr(mod, 'whitelist', ()) else 'other-check-character-accepted'),
                         'b: other check character must be rejected', kwargs=kw, number=n, projection=p))
+
+    def check_enum(n, alphabets):
+        """validator side enumeration: every combination of check alphabet characters at the check positions of n;
+        whatever validate accepts must carry the generated check (finds aliases that differ in two characters,
+        e.g. mod 97 check digits 00/97, which (b) cannot see)"""
+        nonlocal cases
+        ps = [p for p in projs if applies(p, n)]
+        groups = [ps]
+        pos = sorted(set(i for p in ps for i in range(*check_span(p, n))))
+        alpha = ''.join(sorted(set(''.join(alphabets[p['gen']] for p in ps)), key=(DIGITS + UPPER + '*').find))
+        if len(alpha) ** len(pos) > 1300:
+            groups = [[p] for p in ps]
+        for g in groups:
+            pos = sorted(set(i for p in g for i in range(*check_span(p, n))))
+            alpha = ''.join(sorted(set(''.join(alphabets[p['gen']] for p in g)), key=(DIGITS + UPPER + '*').find))
+            if not pos or len(alpha) ** len(pos) > 1300:
+                dist['enum_skipped_too_large'] += 1
+                continue
+            s = list(n)
+            for combo in itertools.product(alpha, repeat=len(pos)):
+                for i, c in zip(pos, combo):
+                    s[i] = c
+                v = ''.join(s)
+                if v == n:
+                    continue
+                cases += 1
+                dist['enum_variants'] += 1
+                nontrivial.add(('b', v))
+                o = val(v)
+                if o[0] == 'ok' and o[1] == v and v not in fails_a:
+                    dist['enum_accepted'] += 1
+                    check_a(v, 'enumerated check characters of ' + n)
 
     # (a) on the corpus
     for n in seeds:
@@ -479,13 +520,16 @@ def module_job(arg):
     alphabets = {p['gen']: check_alphabet(mod, p, pool, rng) for p in projs}
     info['check_alphabet'] = {g: ('digits' if a == DIGITS else 'digits+letters' + a[36:]) for g, a in alphabets.items()}
     info['synthesised_valid'] = len(pool) - len(seeds)
-    bpool = pool if tier != 'quick' else pool[:400]
-    if tier != 'quick' and len(bpool) > 4000:
-        bpool = seeds + rng.sample(pool[len(seeds):], 4000 - len(seeds))
+    bpool = pool if tier != 'quick' else pool[:1000]
+    if tier != 'quick' and len(bpool) > 10000:
+        bpool = seeds + rng.sample(pool[len(seeds):], 10000 - len(seeds))
     for n in pool[len(seeds):]:
         check_a(n, 'synthesised')
     for n in bpool:
         check_b(n, alphabets)
+    epool = [n for n in bpool if n not in fails_a]
+    for n in epool[:40] + rng.sample(epool[40:], min(len(epool) - 40, 160 if tier == 'quick' else 1500)) if len(epool) > 40 else epool:
+        check_enum(n, alphabets)
     if bpool:
         n = bpool[-1]
         samples.append({'module': modname, 'relation': 'b', 'number': n, 'origin': 'synthesised' if n not in seeds else 'corpus',
@@ -538,7 +582,9 @@ def search(seed, tier):
         'rule': ('per module with a public calc_* generator: projection (payload, check) from HARD table / source '
                  'hint / candidate list; (a) generator vs check of every valid number (corpus + synthesised); '
                  '(b) every check position x every other character of the check alphabet must be rejected '
-                 '(documented alternatives excepted); (c) class-preserving random payloads (1..all positions of a '
+                 '(documented alternatives excepted); (a\') for a sample of valid numbers every combination of check '
+                 'alphabet characters at the check positions: whatever validate accepts must carry the generated check; '
+                 '(c) class-preserving random payloads (1..all positions of a '
                  'valid number re-drawn) completed with the generated check must not raise InvalidChecksum in the '
                  'module itself.  Non-trivial = distinct (a) valid numbers checked + distinct (b) variants + distinct '
                  '(c) completions that reached the checksum verdict (accepted or InvalidChecksum); completions '
